@@ -1,5 +1,6 @@
 (* A JSON Schema Draft-7 validator for the keyword subset barectf's schemas use, modelled on
-   python-jsonschema 3.2.0 (the `Draft7Validator` barectf instantiates).
+   python-jsonschema 3.2.0 (the `Draft7Validator` barectf instantiates, with barectf's type checker: `integer` is a
+   Python int, neither a bool nor a float - since /repo 0067f84).
 
    * A schema is [SBool b], a reference [SRef key] (python-jsonschema ignores every sibling of
      `$ref`), a keyword list [SKws] in the order of the YAML mapping (the order in which
@@ -73,7 +74,6 @@ Definition has_type (j : json) (t : jtype) : bool :=
   | TNull, JNull => true
   | TBool, JBool _ => true
   | TInt, JInt _ => true
-  | TInt, JFloat (FFin n d) => Z.eqb (n mod Z.pos d) 0   (* Draft 6+: a float with an integral value *)
   | TNum, JInt _ => true
   | TNum, JFloat _ => true
   | TStr, JStr _ => true
